@@ -153,7 +153,7 @@ def work_hist(chunk):
             col.violation({"property": "C09", "sig": "C09:second-simulate-on-same-object-differs", "kind": "hist", "spec": spec, "opts": opts, "hist": "sim;sim",
                            "detail": {"first_difference": first_diff(d1, d2)}})
         # (1a) earlier activity with *other* arguments on the same object, then the reference call again
-        for hist in (("sim-abs",), ("sim", "insert"), ("sim-abs", "remove"), ("sim-auto",)):
+        for hist in (("sim-abs",), ("sim", "insert"), ("sim-abs", "remove"), ("sim-auto",), ("sim", "queries"), ("queries",)):
             mo = runner.prepare(spec, opts)
             try:
                 for op in hist:
@@ -167,6 +167,8 @@ def work_hist(chunk):
                         mo.project.insert_absence_time_list([1])
                     elif op == "remove":
                         mo.project.remove_absence_time_list()
+                    elif op == "queries":
+                        runner.read_only_calls(mo.project)  # get_*_list, extract_*, chart and network data, print_* with default arguments
                 mo.project.simulate(**runner.sim_kwargs(opts))
                 d4 = jdump(mo)
             except Exception as e:
@@ -417,6 +419,9 @@ def perm_items(tier):
         for fl in F.flows(4, ("FS", "FF", "SS"), (1,)):
             sp = F.with_teams(fl, "DED")
             out.append((sp, {"rule": "TSLACK", "max_time": F.seq_bound(sp) + 6}))
+    # five tasks: a tail with two inputs of different kinds in one layer beside an independent chain, fewer workers than READY tasks (all 5! orders)
+    for sp in F.five_task_join_specs()[:: (2 if tier == "quick" else 1)]:
+        out.append((sp, {"rule": "TSLACK", "max_time": F.seq_bound(sp) + 6}))
     # components (sets of components are iterated in check_removing_placed_workplace)
     for sp in list(F.fac_specs("quick"))[:: (4 if tier == "quick" else 1)]:
         if len(sp.get("components", [])) <= 3:
@@ -667,7 +672,7 @@ def run(tier, seed):
         "level": "model_checking",
         "rule": "schedule exploration: for every 3-task workflow over the four dependency kinds x works {1,2} x layouts x rules (thorough: also 4-task FS/FF/SS) and FAC models, ALL n! "
         "assignments of hash ranks to tasks (and all permutations for components), i.e. every iteration order of every internal set of tasks/components, complete dump compared with "
-        "the identity order (and all orders of worker hashes); histories on one object (simulate;simulate, simulate with other absence/auto arguments or log edits then simulate, backward_simulate with every flag pair then simulate, a run stopped at step 1..3 and started again with everything reset or with the logs kept), rebuilt models with the library's id()-hashed classes, edits of the model between two runs on one object (team targeting added/removed, skill, work amount, solo flag, absence list extended in place, worker moved to another team, dependency added) compared with a freshly built edited model, contamination histories (activity on project A, then "
+        "the identity order (and all orders of worker hashes); histories on one object (simulate;simulate, simulate with other absence/auto arguments or log edits or every read-only helper (queries, chart data, printing) then simulate, backward_simulate with every flag pair then simulate, a run stopped at step 1..3 and started again with everything reset or with the logs kept), rebuilt models with the library's id()-hashed classes, edits of the model between two runs on one object (team targeting added/removed, skill, work amount, solo flag, absence list extended in place, worker moved to another team, dependency added) compared with a freshly built edited model, contamination histories (activity on project A, then "
         "default-argument simulate on a fresh project B, mutable defaults compared), one sub-family in two fresh interpreters with different PYTHONHASHSEED, the same models in list order and in reversed order in two fresh interpreters (no dependence on what ran earlier in the process), models whose resources get generated default IDs built six times; models with fixed worker/facility ID lists x solo flags simulated in fresh interpreters under every iteration order of their ID sets (covering PYTHONHASHSEED values); per-iteration-event deviations: with a set subclass injected into the library's modules, every single iteration "
         "event of a run is given every alternative order of that set (deviation bound 1) on 2-3 task models; "
         "non-trivial = distinct models with at least one dependency link (permutations) or explored history roots",
